@@ -273,3 +273,32 @@ func init() {
 			Old: "\t\treturn pb.clone(), nil", New: "\t\tcp := pb.clone()\n\t\treturn cp, nil", Expect: ""},
 	)
 }
+
+func init() {
+	addSeeds(
+		// ---- C04 ----
+		seed{Prop: "C04", Name: "nil-path-untrimmed-again", File: "maxsat/parser.go",
+			Old: "\t\tres := s.solver.Optimal(nil, stop)\n\t\tif res.Status == solver.Sat {\n\t\t\tres.Model = res.Model[:s.firstRelax] // Remove relax vars from the model\n\t\t}\n\t\treturn res",
+			New: "\t\treturn s.solver.Optimal(nil, stop)", Expect: "R4.1"},
+		seed{Prop: "C04", Name: "forwarder-trim-removed", File: "maxsat/parser.go",
+			Old: "\tfor res = range localRes {\n\t\tif res.Status == solver.Sat {\n\t\t\tres.Model = res.Model[:s.firstRelax] // Remove relax vars from the model\n\t\t}\n\t\tresults <- res",
+			New: "\tfor res = range localRes {\n\t\tresults <- res", Expect: "R4.1"},
+		seed{Prop: "C04", Name: "trim-only-optimal-result", File: "maxsat/parser.go",
+			Old: "\tfor res = range localRes {\n\t\tif res.Status == solver.Sat {",
+			New: "\tfor res = range localRes {\n\t\tif res.Status == solver.Sat && res.Weight == 0 {", Expect: "R4.1"},
+		seed{Prop: "C04", Name: "trim-at-wrong-bound", File: "maxsat/parser.go",
+			Old: "\tfor res = range localRes {\n\t\tif res.Status == solver.Sat {\n\t\t\tres.Model = res.Model[:s.firstRelax]",
+			New: "\tfor res = range localRes {\n\t\tif res.Status == solver.Sat {\n\t\t\tres.Model = res.Model[:len(res.Model)-1]", Expect: "R4.1"},
+		seed{Prop: "C04", Name: "blocking-coefficient-is-weight", File: "maxsat/problem.go",
+			Old: "\t\t\t\tcoeffs = append(coeffs, constr.AtLeast)", New: "\t\t\t\tcoeffs = append(coeffs, constr.Weight)", Expect: "R4.2"},
+		seed{Prop: "C04", Name: "cardinality-case-dropped", File: "maxsat/problem.go",
+			Old: "\t\t\tif coeffs == nil && constr.AtLeast != 1 {", New: "\t\t\tif coeffs == nil && constr.AtLeast > 2 {", Expect: "R4.2"},
+		seed{Prop: "C04", Name: "blocking-literal-not-appended-for-pb", File: "maxsat/problem.go",
+			Old: "\t\t\tlits = append(lits, bl)\n", New: "\t\t\tif coeffs == nil {\n\t\t\t\tlits = append(lits, bl)\n\t\t\t}\n", Expect: "R4.2"},
+		seed{Prop: "C04", Name: "name-filter-dropped", File: "maxsat/problem.go",
+			Old: "\t\tif name != \"\" { // Ignore blocking lits\n\t\t\tres[name] = binding\n\t\t}", New: "\t\tres[name] = binding", Expect: "R4.3"},
+		seed{Prop: "C04", Name: "benign-trim-helper-condition-swapped", File: "maxsat/parser.go",
+			Old: "\tfor res = range localRes {\n\t\tif res.Status == solver.Sat {\n\t\t\tres.Model = res.Model[:s.firstRelax] // Remove relax vars from the model\n\t\t}\n\t\tresults <- res",
+			New: "\tfor res = range localRes {\n\t\tif res.Status != solver.Sat {\n\t\t\tresults <- res\n\t\t\tcontinue\n\t\t}\n\t\tres.Model = res.Model[:s.firstRelax] // Remove relax vars from the model\n\t\tresults <- res", Expect: ""},
+	)
+}
